@@ -233,8 +233,8 @@ static void packet_mutations(const std::string &seed, const std::function<void(c
 	std::vector<Pkt> P = packets(seed);
 	Mutation m;
 	auto emit = [&](const std::string &id, const std::string &cls, const std::string &data) {
-		if (!seen.insert(fnv(data)).second) return;
-		m.id = id, m.cls = cls, m.data = data;
+		if (!seen.insert(SeedHash::hash_ready(data)).second) return;
+		m.id = id, m.cls = cls, m.ready = data, m.have_ready = true;
 		f(m);
 	};
 	for (size_t i = 0; i < P.size(); i++)
@@ -671,7 +671,7 @@ int main(int argc, char **argv)
 			Catalogue C = T.cat;
 			B.custom = [seed, ranges, C](const std::function<void(const Mutation &)> &f) {
 				std::unordered_set<uint64_t> seen;
-				seen.insert(fnv(seed));
+				seen.insert(SeedHash::hash_ready(seed));
 				C.bytes(seed, f, &seen, true, &ranges);
 				packet_mutations(seed, f, seen);
 			};
